@@ -90,7 +90,7 @@ def gen_cases(rng, tier, dflt):
             add('ovl', sw, None, c1, second(c1))
     return cases
 
-KEYS = ('I', 'O', 'D', 'WB', 'KP', 'DAX', 'RL', 'RD', 'C', 'CWB', 'KC', 'KS')
+KEYS = ('I', 'O', 'D', 'WB', 'KP', 'DAX', 'RL', 'RD', 'C', 'CWB', 'KC', 'KS', 'FL', 'GH', 'FH', 'DH', 'WK')
 _RND = ' '.join('%s=(\\S+)' % k for k in KEYS)
 RX = re.compile(r'^(\d+) ' + _RND + r' R=(\S+) \| ' + _RND + '$')
 
@@ -107,8 +107,27 @@ def parse(line):
 BITS = {'O': ZMO, 'D': ZMOD, 'WB': WBC, 'KP': KPV2, 'DAX': DAX, 'RL': ZMO, 'RD': ZMOD, 'C': ZMO, 'CWB': WBC, 'KC': KPV2, 'KS': KPV2}
 NAMES.update({'RL': 'no-open (RELEASE answered ENOSYS)', 'RD': 'no-opendir (RELEASEDIR answered ENOSYS)', 'C': 'no-open (CREATE returned no handle)',
               'CWB': 'writeback flag rewriting on CREATE', 'KC': 'kill-priv on CREATE(O_TRUNC) of an existing file', 'KS': 'kill-priv on SETATTR(size)'})
+# handle-path probes (FL GH FH DH WK): further entry points that read the same switches
+BITS.update({'FL': ZMO, 'GH': ZMO, 'FH': ZMO, 'DH': ZMOD, 'WK': KPV2})
+NAMES.update({'FL': 'no-open (FLUSH answered ENOSYS)', 'GH': 'no-open data path (GETATTR ignored the handle)', 'FH': 'no-open data path (FSYNC ignored the handle)',
+              'DH': 'no-opendir data path (READDIR ignored the handle)', 'WK': 'kill-priv on WRITE(WRITE_KILL_PRIV)'})
+def normalise(layer, r):
+    """GH / FH / DH are probed with a handle no OPEN ever returned.  'hl' = the handle-less path was taken, 'h' = the
+    handle was looked up (and refused), 'na' = this layer does not let the probe tell.
+    passthrough (also behind a Vfs): handle mode refuses with EBADF, no-open / no-opendir mode serves the request.
+    overlay: getattr / readdir fall back to the inode for an unknown handle in either mode (na); fsync: handle mode = ENOENT
+    (not in the handle table), no-open mode = EBADF from the layer that is handed real handle 0."""
+    r = dict(r)
+    if layer == 'ovl':
+        m = {'GH': {'ok': 'na'}, 'DH': {'ok': 'na'}, 'FH': {'err:9': 'hl', 'err:2': 'h'}}
+    else:
+        m = dict((k, {'ok': 'hl', 'err:9': 'h'}) for k in ('GH', 'FH', 'DH'))
+    for k in m:
+        if k in r: r[k] = m[k].get(r[k], 'unmapped:' + r[k])
+    return r
 def on(r, k):
-    if k in ('O', 'D', 'RL', 'RD'): return r[k] == 'enosys'
+    if k in ('GH', 'FH', 'DH'): return r[k] == 'hl'
+    if k in ('O', 'D', 'RL', 'RD', 'FL'): return r[k] == 'enosys'
     if k == 'C': return r[k] == 'nh'
     return r[k] == '1'
 
@@ -121,10 +140,12 @@ def coq_round(r):
     def b(s): return {'1': 'true', '0': 'false'}.get(s)
     def up(s): return 'UOk' if s == 'ok' else ('UEnosys' if s == 'enosys' else ('UOther' if s.startswith('err:') else None))
     def ch(s): return {'h': 'true', 'nh': 'false'}.get(s)
+    def hl(s): return {'hl': '(Some true)', 'h': '(Some false)', 'na': 'None'}.get(s)
     tw = [up(r['RL']), up(r['RD']), ch(r['C']), tri(r['CWB']), tri(r['KC']), tri(r['KS'])]
+    hp = [up(r['FL']), hl(r['GH']), hl(r['FH']), hl(r['DH']), tri(r['WK'])]
     parts = [coq_ires(r['I']), pr(r['O']), pr(r['D']), tri(r['WB']), tri(r['KP']), b(r['DAX'])]
-    if any(p is None for p in parts + tw) or int(r['I'].split(':')[1]) < 0: return None
-    return '(mkR %s (mkW %s))' % (' '.join(parts), ' '.join(tw))
+    if any(p is None for p in parts + tw + hp) or int(r['I'].split(':')[1]) < 0: return None
+    return '(mkR %s (mkW %s) (mkH %s))' % (' '.join(parts), ' '.join(tw), ' '.join(hp))
 
 def coq_case(c, r1, rr, r2):
     a, b = coq_round(r1), coq_round(r2)
@@ -181,7 +202,7 @@ def check_property(c, r1, rr, r2, dflt):
     if layer == 'pt' and not c['sw'] & 1:
         # under a VFS (do_import = false): exactly the capability word
         for p, bit in BITS.items():
-            if r1[p] == 'na': continue
+            if r1[p] == 'na' or r1[p].startswith('unmapped'): continue
             expect = bool(c['cap1'] & bit)
             if p == 'DAX' and (c['sw'] >> 7) & 3: expect = False       # dax_file_size unset / larger than the file: never
             if on(r1, p) != expect:
@@ -206,7 +227,7 @@ def run(rng, tier, bindir, findings, broken):
     obs = {}
     for line in out.splitlines():
         p = parse(line)
-        if p: obs[p[0]] = p[1:]
+        if p: obs[p[0]] = (normalise(cases[p[0]]['layer'], p[1]), p[2], normalise(cases[p[0]]['layer'], p[3])) if p[0] < len(cases) else p[1:]
     bad_lines = [l for l in out.splitlines() if l.strip() and not parse(l)]
     if rc != 0 or len(obs) != len(cases):
         broken.append({'kind': 'harness-run', 'name': 'inittoggle', 'log': '\n'.join(bad_lines[:5]) or out[-800:]})
